@@ -22,6 +22,9 @@ structure Obs where
   acq : Nat
   rel : Nat
   dbl : Nat                 -- ledger anomalies: release of an object not outstanding, or handed out twice
+  recovDefault : Nat := 0   -- calls of the library's own recover handler (`logStackOnRecover`), counted by
+                            -- the harness through the package logger ("recover from panic situation" entries);
+                            -- the model's `obsOf` counts every recover call in `recov` and leaves this 0
   deriving Repr
 
 def isPanic : Act → Bool
@@ -174,10 +177,32 @@ def panicFromFilter (E : ReEnv) (cfg : Cfg) (e : Entry) (sr : SReq) : Bool :=
         | _ => false)
       | none => false)
 
+/-- the bytes a script hands to `Write`, in order, up to its end or its first panic -/
+def scriptWrites : List Act → Str
+  | [] => []
+  | .write b :: as => b ++ scriptWrites as
+  | .panic _ :: _ => []
+  | _ :: as => scriptWrites as
+
+/-- The body clause of C10 for a recovered panic.  `before` = the bytes that had reached the base
+    writer when the panic was raised (the body of the run without recovery and without coding);
+    `libText` = part of `before` is a message text of the library's own service-error writer, which no
+    property compares (cf. `libraryErrorText`).
+    * custom recover handler: the client's (decoded) body is exactly `before` followed by what the
+      handler's script writes — its writes went through the coding when there is one;
+    * the library's handler writes a stack trace whose text is not comparable: the body starts with
+      `before` and something follows. -/
+def c10Body (cfg : Cfg) (libText : Bool) (before : Str) (o : Obs) : Bool :=
+  match cfg.recoverScript with
+  | some sc =>
+    if libText then (scriptWrites sc).isSuffixOf o.body else o.body == before ++ scriptWrites sc
+  | none =>
+    if libText then !o.body.isEmpty else before.isPrefixOf o.body && before.length < o.body.length
+
 /-- C10 on an observation -/
 def c10Holds (E : ReEnv) (cfg : Cfg) (e : Entry) (sr : SReq) (o : Obs) : Bool :=
-  -- what happens without recovery and without coding tells which panic is raised first and whether
-  -- anything had been written by then
+  -- what happens without recovery and without coding tells which panic is raised first and what
+  -- had been written by then
   let raw := serve E { noCoding cfg with recover := false } e {} { sr with acceptEncoding := [] }
   let ledgerOK := o.acq == o.rel && o.dbl == 0 && o.complete
   let routed := match e with
@@ -187,10 +212,17 @@ def c10Holds (E : ReEnv) (cfg : Cfg) (e : Entry) (sr : SReq) (o : Obs) : Bool :=
   -- there are container filters; a plain http.Handler registered with Handle is neither a filter
   -- nor a route function, its panic propagates
   let covered := routed || ((e == .muxHandleF || e == .serveHandleF) && !cfg.cfilters.isEmpty)
+  -- the library's service-error writer ran before the panic: its text is in what had been written
+  let libText := libraryErrorText E cfg e sr && raw.log.any (fun ev => ev.stage == Stage.errorWriter)
   if cfg.recover && covered then
     o.escaped.isNone && ledgerOK &&
-      (cfg.recoverScript.isNone || o.recov == (if raw.escaped.isSome then 1 else 0)) &&
-      (!(raw.escaped.isSome && raw.rc.status.isNone) || o.status == recoverStatus cfg)
+      -- one recover-handler call iff a panic was raised, whichever handler is installed (a custom
+      -- handler counts its own calls, the library's are counted through the package logger) …
+      (o.recov + o.recovDefault == (if raw.escaped.isSome then 1 else 0)) &&
+      -- … and the library's handler does not run when a custom one is installed
+      (cfg.recoverScript.isNone || o.recovDefault == 0) &&
+      (!(raw.escaped.isSome && raw.rc.status.isNone) || o.status == recoverStatus cfg) &&
+      (!raw.escaped.isSome || c10Body cfg libText raw.rc.body o)
   else o.escaped == raw.escaped && ledgerOK
 
 /-- C13, the framework's half, on an observation: every compressor acquired while the request was
